@@ -136,7 +136,8 @@ def run_history(v, h, toks, hid, rnd, page_size, nrows, tier):
             lead.append(("hl", "indexed_select", "r", {"index": xi_all[-1]}))
         elif after == "ddl_create" and len(tnames) > 3:
             lead.append(("hl", "select", tnames[-1], {}))
-        elif after in ("ddl_drop", "drop_index", "alter_add", "vacuum_pagesize"):
+        elif after in ("ddl_drop", "drop_index", "alter_add", "vacuum_pagesize") and nstep % 3 != 0:
+            # (every third time the listings are left out: the bracket then starts with an ordinary operation)
             for lop in ({"op": "tables" if after != "drop_index" else "indexes"}, {"op": "columns", "table": "r"}):
                 k = len(ops.items)
                 hop = dict(lop, id=next_id())
@@ -159,6 +160,12 @@ def run_history(v, h, toks, hid, rnd, page_size, nrows, tier):
                 plan.append(("hl", "indexed_select", "r", {"index": xi[-1]}))
             if group % 4 == 3:
                 plan.append(("hl", "select", "r", {}))       # repeated read, no intervening write
+            # which operation is the FIRST after the commit varies from bracket to bracket (every operation has to notice
+            # a changed schema / changed pages by itself): rotate, keeping the commit-specific lead in front half of the time
+            body = plan[len(lead):]
+            rot = (group // 2) % max(1, len(body))
+            body = body[rot:] + body[:rot]
+            plan = (list(lead) + body) if group % 4 < 2 else (body[:1] + list(lead) + body[1:])
             for kind, op, tn, kw in plan:
                 k = ops.add_hl(x["name"], op, tn, x["desc"], meta={"cls": "h%d/%s/%s" % (hid, op, tn)}, **kw)
                 ops.items[k]["h"]["id"] = next_id()
